@@ -76,6 +76,31 @@ class Sink:
         return out
 
 
+class ChoppySink(Sink):
+    """A socket that accepts fewer bytes than offered (policy: fixed count or seeded random counts per send) and
+    raises socket.timeout / EAGAIN in between; what it ACCEPTED, concatenated, is what reached the wire."""
+
+    def __init__(self, policy, rng_seed=0):
+        Sink.__init__(self)
+        import random
+        self.policy = policy
+        self.rnd = random.Random("chop-%s-%s" % (policy, rng_seed))
+        self.calls = 0
+
+    def send(self, data):
+        import errno
+        import socket
+        self.calls += 1
+        if self.calls % 3 == 2:
+            raise socket.timeout()
+        if self.calls % 7 == 5:
+            raise socket.error(errno.EAGAIN, "try again")
+        k = self.policy if isinstance(self.policy, int) else self.rnd.randrange(1, 40)
+        k = max(1, min(k, len(data)))
+        self.buf += bytes(data[:k])
+        return k
+
+
 class pinned_urandom:
     """os.urandom pinned to a constant byte (padding content is an input, DESIGN.md section 3)."""
 
@@ -309,9 +334,9 @@ def toy_configs(ctx, table_bs):
     return cfgs
 
 
-def toy_packetizer(cfg):
+def toy_packetizer(cfg, sink=None):
     from paramiko.packet import Packetizer
-    sink = Sink()
+    sink = sink if sink is not None else Sink()
     p = Packetizer(sink)
     return (p, sink, toy_install(p, cfg))
 
@@ -497,11 +522,14 @@ def make_transport():
 class TeeSocket:
     """Passes everything to the real (loop) socket and keeps a copy of what was sent."""
 
-    def __init__(self, sock):
+    def __init__(self, sock, chop=0):
         self.sock = sock
         self.sent = bytearray()
+        self.chop = chop            # > 0: accept at most this many bytes per send (short writes)
 
     def send(self, data):
+        if self.chop:
+            data = data[:self.chop]
         n = self.sock.send(data)
         self.sent += bytes(data[:n])
         return n
@@ -517,10 +545,13 @@ def e2e_session(ctx, ci, cname, cinfo, mi, mname, minfo, sizes, compression, res
     import paramiko
     from paramiko.transport import Transport
     from _loop import LoopSocket
-    case0 = {"drive": "e2e", "cipher": cname, "mac": mname, "compression": compression}
+    case0 = {"drive": "e2e", "cipher": cname, "mac": mname, "compression": compression,
+             "bytes_per_send": (0, 0, 13)[(ci + mi) % 3]}
+    if getattr(ctx, "c03_e2e_failures", 0) >= 2:
+        return          # handshakes already fail (reported with their suites): do not wait for 70 more timeouts
     a, b = LoopSocket(), LoopSocket()
     a.link(b)
-    tee = TeeSocket(a)
+    tee = TeeSocket(a, chop=(0, 0, 13)[(ci + mi) % 3])
 
     class RecTransport(Transport):
         c03_kex = None
@@ -543,8 +574,9 @@ def e2e_session(ctx, ci, cname, cinfo, mi, mname, minfo, sizes, compression, res
         import threading
         ts.start_server(event=threading.Event(), server=paramiko.ServerInterface())
         try:
-            tc.start_client(timeout=15)
+            tc.start_client(timeout=8)
         except Exception as e:
+            ctx.c03_e2e_failures = getattr(ctx, "c03_e2e_failures", 0) + 1
             ctx.fail("e2e-handshake", "two paramiko Transports restricted to one suite cannot complete the "
                      "handshake (%s)" % type(e).__name__, case=case0, observed=repr(e)[:300])
             return
@@ -1042,6 +1074,32 @@ def run_switch_drive(ctx, only=None):
     return results
 
 
+def run_partial_send_drive(ctx, only=None):
+    """SHORT WRITES: the socket takes 1, 7, block size - 1 or random counts of bytes per send() and raises
+    socket.timeout / EAGAIN in between; the concatenation of what it accepted must be exactly the framed packet."""
+    clear = dict(enc=False, etm=False, aead=False, sdctr=False, bs=8, mac=0, digest=0, atag=16, hash=None,
+                 set_bs=False, comp=None)
+    modes = [clear] + switch_modes()
+    results = []
+    for mi, cfg in enumerate(modes):
+        policies = [1, 7, cfg["bs"] - 1, cfg["bs"], "random"]
+        for policy in policies:
+            if only is not None and (only["mode"] != mi or only["policy"] != policy):
+                continue
+            p, sink, eng = toy_packetizer(cfg, sink=ChoppySink(policy, ctx.seed))
+            bs = cfg["bs"]
+            lens = [1, bs - 5, bs, 2 * bs + 3, 300] + ([ctx.rng.randrange(20, 2000)] if only is None else [])
+            if only is not None and only["payload_len"] not in lens:
+                lens.append(only["payload_len"])
+            for seq, n in enumerate(lens):
+                summ, case, flen = toy_one(ctx, cfg, p, sink, eng, n, seq,
+                                           case_extra={"drive": "partial-send", "mode": mi, "policy": policy})
+                ctx.count(("partial", mi, policy, n), nontrivial=True, kind="partial-send-" + mode_name(cfg))
+                if summ is not None:
+                    results.append((toy_input(cfg, n, flen), summ, dict(case, payload_len=n, framed_len=flen)))
+    return results
+
+
 def run_two_objects_drive(ctx, only=None):
     """TWO LIVE Packetizers with different suites in one process (state that is per instance must stay so): the
     first is used again after the second was configured and used."""
@@ -1143,7 +1201,10 @@ def run(ctx):
                 "sequences of 3-5 switches; table drive = every session re-keys once to a suite of another class "
                 "(second real _activate_outbound on the same Transport), and the algorithms of the opposite "
                 "direction (remote_cipher / remote_mac) always differ from the outbound ones.  Two live Packetizers "
-                "with different suites, the first used again after the second.  END TO END: two real Transports "
+                "with different suites, the first used again after the second.  Short writes: sockets that accept 1, 7, "
+                "bs-1, bs or random byte counts per send() with socket.timeout / EAGAIN in between (the accepted bytes "
+                "must be exactly the framed packet); a third of the end-to-end sessions use a 13-byte-per-send "
+                "socket.  END TO END: two real Transports "
                 "negotiate (SecurityOptions restricted to one cipher/MAC/compression; every pair of the tables each "
                 "run, a seed-rotated subset compared with the model in the quick tier) and the client's wire bytes "
                 "are received independently (own RFC 4253 7.2 key derivation).  Every table entry is compared with an "
@@ -1169,6 +1230,7 @@ def run(ctx):
         toy = run_toy_drive(ctx, table_bs, builds=builds)
         toy += run_switch_drive(ctx)
         toy += run_two_objects_drive(ctx)
+        toy += run_partial_send_drive(ctx)
         table = []
         for ci, (cname, cinfo) in enumerate(ciphers):
             for mi, (mname, minfo) in enumerate(macs):
@@ -1248,6 +1310,10 @@ def replay(ctx, rep):
         elif case.get("drive") == "switch":
             res = run_switch_drive(ctx, only=list(case["sequence"]))
             compare(ctx, "run_toy", "((bool * bool * bool * bool) * (Z * Z * Z * Z) * (Z * Z))", res, "key switches")
+        elif case.get("drive") == "partial-send":
+            res = run_partial_send_drive(ctx, only={"mode": case["mode"], "policy": case["policy"],
+                                                    "payload_len": case["payload_len"]})
+            compare(ctx, "run_toy", "((bool * bool * bool * bool) * (Z * Z * Z * Z) * (Z * Z))", res, "short writes")
         elif case.get("drive") == "two-objects":
             res = run_two_objects_drive(ctx, only=list(case["pair"]))
             compare(ctx, "run_toy", "((bool * bool * bool * bool) * (Z * Z * Z * Z) * (Z * Z))", res, "two objects")
